@@ -58,8 +58,11 @@ def isAsciiDigit (c : UInt8) : Bool := 0x30 ≤ c && c ≤ 0x39
 def isAsciiAlnum (c : UInt8) : Bool := isAsciiAlpha c || isAsciiDigit c
 def toLowerAscii (c : UInt8) : UInt8 := if 0x41 ≤ c && c ≤ 0x5A then c + 0x20 else c
 
-/-- comrak's `ctype::isspace`: tab, LF, VT, FF, CR, space. -/
-def isSpace (c : UInt8) : Bool := c == 0x09 || c == 0x0A || c == 0x0B || c == 0x0C || c == 0x0D || c == 0x20
+/-- comrak's `ctype::isspace` (src/ctype.rs, class 1): tab, LF, CR, space - no VT, no FF. -/
+def isSpace (c : UInt8) : Bool := c == 0x09 || c == 0x0A || c == 0x0D || c == 0x20
+
+/-- White space of the HTML tokenizer (what ends a tag name for a browser): tab, LF, FF, CR, space. -/
+def htmlSpace (c : UInt8) : Bool := c == 0x09 || c == 0x0A || c == 0x0C || c == 0x0D || c == 0x20
 
 /-- Decimal spelling of a natural number (as `write!("{}")` does). -/
 def ofNatDec (n : Nat) : Bytes := (toString n).toUTF8.toList
